@@ -97,6 +97,7 @@ def generate(ck):
                 "inplace_factor": float(rng.choice([1.02, 3.0, 50.0])),
                 "seed": int(rng.integers(0, 2**31)),
                 "table": str(rng.choice(["haynesville", "pvt_gas"])),
+                "p_i_at": [None, "top", None, "row", None][i % 5],
             }
         )
     return descs
@@ -129,6 +130,15 @@ def run_case(ck, desc):
         pf[edges[k] : edges[k + 1]] = desc["levels"][k]
     pf = pf + desc["noise"] * rng.standard_normal(n)
     tau, M, p_i = desc["tau"], desc["M"], desc["p_i"]
+    P_tab = np.sort(np.asarray(pvt["pressure"], dtype=float))
+    if desc.get("p_i_at") == "top":
+        # initial pressure exactly ON the table's last row, which is also the stated maximum of the fit
+        p_i = float(P_tab[-1])
+        desc = dict(desc, imax=p_i)
+        ck.count("cases_initial_pressure_on_last_table_row")
+    elif desc.get("p_i_at") == "row":
+        p_i = float(P_tab[int(np.searchsorted(P_tab, p_i))])
+        ck.count("cases_initial_pressure_on_a_table_row")
     truth = Parameters()
     truth.add("tau", value=tau)
     truth.add("M", value=M)
@@ -158,13 +168,14 @@ def run_case(ck, desc):
     # the same parameters with ANOTHER fluid table in the same process: the objective must follow
     # the table it is given (no state carried over from the previous evaluation)
     other = tables.shipped("pvt_gas" if desc["table"] == "haynesville" else "haynesville")
-    with warnings.catch_warnings(), np.errstate(all="ignore"):
-        warnings.simplefilter("ignore")
-        r1 = np.asarray(fpm._obj_function(truth, days, np.cumsum(gas), other, pf), dtype=float)
-    want1 = M * _forward(other, p_i, tau, days, pf, NODES[-1] if NODES else nodes) - np.cumsum(gas)
-    if not ck.margin("objective follows the table it is given", float(np.max(np.abs(r1 - want1))) / M, 1e-12):
-        ck.violation("objective-uses-forward-model", {"second_table_same_p_initial": True, "rel": float(np.max(np.abs(r1 - want1))) / M}, desc)
-    ck.count("second_table_evaluations")
+    if p_i <= float(np.max(np.asarray(other["pressure"], dtype=float))):
+        with warnings.catch_warnings(), np.errstate(all="ignore"):
+            warnings.simplefilter("ignore")
+            r1 = np.asarray(fpm._obj_function(truth, days, np.cumsum(gas), other, pf), dtype=float)
+        want1 = M * _forward(other, p_i, tau, days, pf, NODES[-1] if NODES else nodes) - np.cumsum(gas)
+        if not ck.margin("objective follows the table it is given", float(np.max(np.abs(r1 - want1))) / M, 1e-12):
+            ck.violation("objective-uses-forward-model", {"second_table_same_p_initial": True, "rel": float(np.max(np.abs(r1 - want1))) / M}, desc)
+        ck.count("second_table_evaluations")
 
     # ---- a real fit on a table with zero-rate days and missing pressures ------------------
     gas_obs = gas.copy()
@@ -235,9 +246,13 @@ def run_case(ck, desc):
     worst = 0.0
     n_re = 0
     for e in evals:
-        if e["raised"] is not None or e["nodes"] is None:
+        if e["raised"] is not None:
             continue
-        rf = _forward(pvt, e["p_initial"], e["tau"], np.asarray(e["days"], dtype=float), e["pf"], e["nodes"])
+        if e["nodes"] is None:
+            # an evaluation that returned numbers without constructing a reservoir is judged like
+            # any other, at the resolution the probe evaluation used
+            ck.count("objective_evaluations_without_a_reservoir")
+        rf = _forward(pvt, e["p_initial"], e["tau"], np.asarray(e["days"], dtype=float), e["pf"], e["nodes"] or nodes)
         want = e["M"] * rf - e["production"]
         scale = max(e["M"], float(np.max(np.abs(e["production"]))))
         err = float(np.max(np.abs(e["result"] - want))) / scale
